@@ -35,9 +35,10 @@ def showTable (t : List (List Rat)) : String := if t.isEmpty then "_" else "|".i
 def parseOInt? (s : String) : Option (Option Int) :=
   if s == "none" then some none else (parseInt? s).map some
 
-def parseKind? (s : String) : Option CellKind :=
-  if s == "S" then some .series else if s == "A" then some .array
-  else if s == "N" then some .numpy3d else none
+/-- container kind used by the harness for the real code (`S` Series cells, `A` ndarray cells, `N` 3-D
+array); validated, but the model is the same for all three -/
+def parseKind? (s : String) : Option Unit :=
+  if s == "S" || s == "A" || s == "N" then some () else none
 
 def parseIntParam? (s : String) : Option IntParam :=
   if s == "notint" then some .notInt else (parseInt? s).map IntParam.int
@@ -144,15 +145,15 @@ def handle (toks : List String) : String :=
     | _, _ => "bad-op"
   | ["interp", kind, len, x] =>
     match parseKind? kind, parseIntParam? len, parsePanel? x with
-    | some k, some len, some x => showE showPanel (interpolate k len x)
+    | some _, some len, some x => showE showPanel (interpolate len x)
     | _, _, _ => "bad-op"
   | ["pad", kind, padLen, fill, xfit, x] =>
     match parseKind? kind, parseOInt? padLen, parseRat? fill, parsePanel? xfit, parsePanel? x with
-    | some k, some pl, some f, some xf, some x => showE showPanel (pad k pl f xf x)
+    | some _, some pl, some f, some xf, some x => showE showPanel (pad pl f xf x)
     | _, _, _, _, _ => "bad-op"
   | ["trunc", kind, lower, upper, xfit, x] =>
     match parseKind? kind, parseOInt? lower, parseOInt? upper, parsePanel? xfit, parsePanel? x with
-    | some k, some lo, some up, some xf, some x => showE showPanel (truncate k lo up xf x)
+    | some _, some lo, some up, some xf, some x => showE showPanel (truncate lo up xf x)
     | _, _, _, _, _ => "bad-op"
   | ["tab", x] =>
     match parsePanel? x with
